@@ -427,6 +427,18 @@ func evalFlagCond(info *types.Info, cond ast.Expr) ([3]bool, bool) {
 		if s, ok := x.Fun.(*ast.SelectorExpr); ok && strings.HasPrefix(s.Sel.Name, "GetExclusive") {
 			return [3]bool{false, false, true}, true
 		}
+		// a predicate helper over the flag: `func exclusive(flag *bool) bool { return flag != nil && *flag }`
+		if core.Current != nil && len(x.Args) == 1 && isBoolPtr(info, x.Args[0]) {
+			if fn := core.CalleeFunc(info, x); fn != nil && fn.Pkg() != nil && core.IsSource(fn.Pkg().Path()) {
+				if pk := core.Current.ByPkg[fn.Pkg().Path()]; pk != nil {
+					if cd := core.DeclOf(pk, fn.Origin()); cd != nil && cd.Body != nil && len(cd.Body.List) == 1 {
+						if rs, ok := cd.Body.List[0].(*ast.ReturnStmt); ok && len(rs.Results) == 1 {
+							return evalFlagCond(pk.TypesInfo, rs.Results[0])
+						}
+					}
+				}
+			}
+		}
 	}
 	return [3]bool{}, false
 }
